@@ -8,6 +8,7 @@ import subprocess
 
 import core
 import trees
+import interactive_route as ir
 
 GEN_FILES = ["GenEffects.v"]
 RULE = ("tie: every filesystem event (sys.addaudithook: open with write flags, remove, rename/replace, mkdir, copyfile, chmod...) "
@@ -18,7 +19,11 @@ RULE = ("tie: every filesystem event (sys.addaudithook: open with write flags, r
         "-q/--quiet/-v/--verbose/no flag, cwd = empty directory | the metafile's directory | the payload's parent, version requests), "
         "`create|new|<implicit>` (with -o file, -o dir/, without -o; pre-existing ./.torrent and dir/.torrent; existing output; the output "
         "directory, cwd and payload parent pre-populated with bystanders named like temporaries of the output: <out>.tmp <out>~ <out>.bak "
-        ".<out>.swp <out>.part ... which must stay untouched), `rename` (normal, new name exists, already named right). Distinct = distinct "
+        ".<out>.swp <out>.part ... which must stay untouched), the INTERACTIVE mode (torrentfile.interactive.select_action in a fresh "
+        "interpreter, answers on stdin, cwd = a scratch working directory): interactive create for every version with the output-path "
+        "answer empty / absolute / relative and the content path absolute or relative, with and without a trailing separator -- exactly "
+        "one new file, at <cwd>/<name>.torrent or the named place, never inside the payload tree; interactive recheck (intact and "
+        "damaged trees) changes nothing; interactive edit (no-op DONE dialog and real edits) changes nothing but the metafile, `rename` (normal, new name exists, already named right). Distinct = distinct "
         "(command spelling, version, tree state, variant).")
 TRUSTED_BASE = [
     "Coq 8.16.1 kernel; theorems closed under the global context",
@@ -299,6 +304,89 @@ def run(ctx, model_ok):
                            [(s, v, var) for s in ("create", "new", "") for v in ("1", "2", "3")
                             for var in ("no-out", "out-dir", "out-file", "out-existing")]):
             check_create(sp, v, var)
+
+        # ---------------------------------------------------------------- the interactive mode (select_action)
+        def run_dialog(sb, wd, answers):
+            return ir.run_interactive_full(answers, wd, os.path.join(sb, "home"))
+
+        def check_interactive_create(version, spelling, out_kind):
+            """interactive create from a scratch working directory: exactly one new file, at the documented place, and never
+            inside the payload tree; payload, working directory and HOME otherwise untouched"""
+            sb, payload, mf = fresh("icreate", "1", False)
+            wd = os.path.join(sb, "wd")
+            outdir = os.path.join(sb, "out")
+            os.makedirs(outdir)
+            content = {"absolute": payload, "absolute/": payload + os.sep, "relative": os.path.relpath(payload, wd),
+                       "relative/": os.path.relpath(payload, wd) + os.sep, "dot-relative/": "." + os.sep + os.path.join(
+                           os.path.relpath(payload, wd), "")}[spelling]
+            if out_kind == "empty":
+                out, expect = "", os.path.join(wd, "payload.torrent")        # prompt: "Output Path (<content>.torrent)"; MetaFile.write: cwd
+            elif out_kind == "absolute":
+                out = expect = os.path.join(outdir, "x.torrent")
+            else:       # relative, with the directory component the dialog insists on
+                out, expect = "." + os.sep + "y.torrent", os.path.join(wd, "y.torrent")
+            answers = ir.create_answers(content, out, version, piece_length="15")
+            before = snapshot(sb)
+            r = run_dialog(sb, wd, answers)
+            after = snapshot(sb)
+            d = diff(before, after)
+            rel = os.path.relpath(expect, sb)
+            inp = {"route": "interactive create (torrentfile.interactive.select_action)", "version": version,
+                   "content path answer": content.replace(sb, "<sandbox>"), "output path answer": out.replace(sb, "<sandbox>"),
+                   "cwd": "<sandbox>/wd", "answers": [a.replace(sb, "<sandbox>") for a in answers]}
+            pay_rel = os.path.relpath(payload, sb)
+            inside = sorted(k for k in d if k == pay_rel or k.startswith(pay_rel + os.sep))
+            if inside:
+                ctx.fail("interactive-create-changed-the-payload-tree", inp, "the payload tree is only read",
+                         {"rc": r["rc"], "exception": r["exception"], "changed inside the payload": {k: d[k] for k in inside}, "diff": d})
+            elif r["rc"] != 0 or list(d.values()) != ["added"] or (out_kind != "empty" and d != {rel: "added"}) \
+                    or after[next(iter(d))][0] != "file":
+                # a named output must be THE new file; the default location (documented: <cwd>/<name>.torrent) is only noted
+                ctx.fail("interactive-create-wrote-other-than-one-file", inp, {rel: "added"},
+                         {"rc": r["rc"], "exception": r["exception"], "stderr": r["stderr"][-300:], "diff": d})
+            elif d != {rel: "added"}:
+                ctx.notes.append(f"interactive create v{version} ({spelling}, empty output answer) wrote {sorted(d)} instead of {rel}")
+            ctx.case(key=("icreate", version, spelling, out_kind),
+                     classes=["interactive create", "interactive create: output answer " + out_kind,
+                              "interactive create: content path " + spelling])
+
+        SPELL = ["absolute", "absolute/", "relative", "relative/", "dot-relative/"]
+        if ctx.tier == "thorough":
+            icases = [(v, s, o) for v in ("1", "2", "3") for s in SPELL for o in ("empty", "absolute", "relative")]
+        else:
+            k = ctx.rng.randrange(60)
+            icases = [(v, s, "empty") for v in ("1", "2", "3") for s in SPELL[:4]]
+            icases += [(v, SPELL[(k + i) % 5], o) for i, (v, o) in enumerate((("1", "absolute"), ("2", "relative"), ("3", "absolute"),
+                                                                             ("3", "relative"), ("2", "empty")))]
+        for v, s, o in icases:
+            check_interactive_create(v, s, o)
+
+        def check_interactive_readonly(kind, version, damaged, edits=None):
+            """interactive recheck: nothing changes.  interactive edit: the metafile is rewritten in place, nothing else appears,
+            disappears or changes (no leftover temporary, payload / working directory / HOME untouched)"""
+            sb, payload, mf = fresh("i" + kind, version, damaged)
+            wd = os.path.join(sb, "wd")
+            answers = ir.recheck_answers(mf, payload) if kind == "recheck" else ir.edit_answers(mf, edits)
+            before = snapshot(sb)
+            r = run_dialog(sb, wd, answers)
+            after = snapshot(sb)
+            d = diff(before, after)
+            inp = {"route": f"interactive {kind} (torrentfile.interactive.select_action)", "version": version, "damaged": damaged,
+                   "cwd": "<sandbox>/wd", "answers": [a.replace(sb, "<sandbox>") for a in answers]}
+            allowed = set() if kind == "recheck" else {os.path.relpath(mf, sb)}
+            if set(d) - allowed or any(v != "changed" for v in d.values()):
+                ctx.fail(f"interactive-{kind}-modified-filesystem", inp,
+                         "nothing created, changed or deleted" + (" except the edited metafile itself" if allowed else ""), d)
+            if r["rc"] != 0:
+                ctx.fail(f"interactive-{kind}-raised", inp, "the dialog completes", {"exception": r["exception"], "stderr": r["stderr"][-300:]})
+            ctx.case(key=("i" + kind, version, str(damaged), json.dumps(edits)), classes=[f"interactive {kind}",
+                     "intact" if not damaged else f"damaged: {damaged}"])
+
+        for v, damaged in ((("1", False), ("2", "missing"), ("3", "truncated"), ("1a", "missing")) if ctx.tier == "quick" else
+                           [(v, dm) for v in ("1", "1a", "2", "3") for dm in DAMAGE]):
+            check_interactive_readonly("recheck", v, damaged)
+        for v, edits in (("1", []), ("3", [("comment", "edited")]), ("2", [("tracker", "http://n/a http://n/b"), ("web-seed", "")])):
+            check_interactive_readonly("edit", v, False, edits)
 
         # ---------------------------------------------------------------- rename
         for variant in ("normal", "new-exists", "already-named"):
